@@ -3,8 +3,8 @@ from ..core import Script, Rng
 from ..stage import LineStage, replay_line
 from .common import *
 
-ARTEFACTS = ["G1-consts", "G2-rs-portable", "G3-arith", "G3b-regions", "G14-c-state", "G4-listings", "G23-c-wide", "G24-portable-many"]
-EXTRA_PROPS = [("B3.Props.C06T", "B3/Props/C06T.lean"), ("B3.Props.C18", "B3/Props/C18.lean"), ("B3.Props.C06W", "B3/Props/C06W.lean")]   # theorems about the code translated from the sources
+ARTEFACTS = ["G1-consts", "G2-rs-portable", "G3-arith", "G3b-regions", "G14-c-state", "G4-listings", "G23-c-wide", "G24-portable-many", "G22-dispatch"]
+EXTRA_PROPS = [("B3.Props.C06T", "B3/Props/C06T.lean"), ("B3.Props.C18", "B3/Props/C18.lean"), ("B3.Props.C06W", "B3/Props/C06W.lean"), ("B3.Props.C04T", "B3/Props/C04T.lean")]   # theorems about the code translated from the sources
 RULE = ("C API histories under every g_cpu_features level: init / init_keyed / init_derive_key / init_derive_key_raw (contexts with "
         "embedded NULs for raw), update splits from the C02 size classes, finalize(out_len) and finalize_seek(seek, out_len) with seeks "
         "from the C03 boundary set and out_len in {0..130, 64j+-1, <=5000}, reset, clone, samelive (finalize leaves the hasher "
